@@ -115,6 +115,52 @@ MCAddrUniverse == {"0000000000000000", "0000000000000001", "ffffffffffffffff", "
 
 Pick(s, off) == s[((Seed + off) % Len(s)) + 1]
 
+\* Repeated nominal types inside ONE embedded type. JSON-Cadence writes the first occurrence of a composite or
+\* interface type in full and every later occurrence - enclosing (recursion) or sibling - as its type ID; RecT(tid)
+\* is such a later occurrence. For every nominal kind: a self-recursive type, the same type at sibling positions,
+\* and mutual recursion between an interface and a composite.
+NomKinds == <<"Struct", "Resource", "Contract", "Event", "Attachment", "StructInterface", "ResourceInterface", "ContractInterface">>
+RTid(k) == Q("Rec" \o k)
+RecFields(k) == LET r == RecT(RTid(k)) IN
+  <<Fld("self", OptT(r)), Fld("arr", VArr(r)), Fld("d", DictT(P("String"), r)), Fld("ref", RefT(Unauth, r))>>
+  \o (IF k \in InterfaceKinds THEN <<Fld("i", InterT(<<r>>))>> ELSE <<>>)
+RecInits(k) == << <<Par("", "p", P("Int")), Par("with", "q", VArr(P("String")))>> >>
+\* the type referring to itself from an INITIALIZER parameter (kept apart: see known finding C41-self-reference-in-initializer)
+RecInitType(k) == Comp(k, Q("RecInit" \o k), <<Fld("f", P("Int"))>>, << <<Par("", "p", OptT(RecT(Q("RecInit" \o k)))), Par("with", "q", P("Int"))>> >>, <<>>)
+RecType(k) == Comp(k, RTid(k), RecFields(k), RecInits(k), IF k = "Attachment" THEN << P("AnyStruct") >> ELSE <<>>)
+RecEnum == Comp("Enum", Q("RecEnum"), <<Fld("rawValue", P("UInt8")), Fld("other", OptT(RecT(Q("RecEnum"))))>>, <<>>, << P("UInt8") >>)
+RecNominals == {RecType(NomKinds[i]) : i \in 1..Len(NomKinds)} \cup {RecEnum}
+\* a small type of each kind for the sibling positions
+Small(k) == Comp(k, Q("Sm" \o k), IF k \in {"Enum"} THEN <<Fld("rawValue", P("UInt8"))>> ELSE <<Fld("f", P("Int"))>>,
+                 IF k = "Event" THEN << <<Par("", "f", P("Int"))>> >> ELSE <<>>,
+                 IF k = "Enum" THEN << P("UInt8") >> ELSE IF k = "Attachment" THEN << P("AnyStruct") >> ELSE <<>>)
+AllKinds == NomKinds \o <<"Enum">>
+Sib(t) == LET r == RecT(t.tid) IN
+  {FunT("impure", <<>>, <<Par("", "a", t)>>, r),
+   FunT("view", <<>>, <<Par("", "a", RefT(Unauth, t)), Par("", "b", OptT(r))>>, VArr(r)),
+   DictT(t, r), DictT(P("String"), DictT(t, VArr(r))),
+   Comp("Struct", Q("Pair" \o t.ck), <<Fld("x", t), Fld("y", r), Fld("z", OptT(r))>>, <<>>, <<>>),
+   CapT(<< RefT(Unauth, DictT(P("String"), VArr(t))) >>), OptT(CArr(DictT(t, r), 2))}
+  \cup (IF t.ck \in InterfaceKinds
+        THEN {InterT(<<t, Small(IF t.ck = "StructInterface" THEN "ResourceInterface" ELSE "StructInterface")>>),
+              Comp("Struct", Q("TwoI" \o t.ck), <<Fld("x", InterT(<<t>>)), Fld("y", InterT(<<r>>))>>, <<>>, <<>>),
+              FunT("impure", <<>>, <<Par("", "a", RefT(Unauth, InterT(<<t>>)))>>, RefT(Unauth, InterT(<<r>>)))}
+        ELSE {})
+SibTypes == UNION {Sib(Small(AllKinds[i])) : i \in 1..Len(AllKinds)}
+\* mutual recursion interface <-> composite
+MutSI == Comp("StructInterface", Q("MutI"), <<Fld("c", OptT(Comp("Struct", Q("MutC"), <<Fld("i", InterT(<<RecT(Q("MutI"))>>)), Fld("again", OptT(RecT(Q("MutC"))))>>, <<>>, <<>>)))>>, <<>>, <<>>)
+MutR  == Comp("Resource", Q("MutR"), <<Fld("i", OptT(InterT(<<Comp("ResourceInterface", Q("MutRI"), <<Fld("r", OptT(RecT(Q("MutR")))), Fld("me", OptT(InterT(<<RecT(Q("MutRI"))>>)))>>, <<>>, <<>>)>>)))>>, <<>>, <<>>)
+MutCI == Comp("ContractInterface", Q("MutCI"), <<Fld("c", RefT(Unauth, Comp("Contract", Q("MutCC"), <<Fld("i", RefT(Unauth, RecT(Q("MutCI"))))>>, <<>>, <<>>)))>>, <<>>, <<>>)
+\* a type first written in a field and referred to from an initializer parameter of the same nominal type
+PairInit == Comp("Struct", Q("PairInit"), <<Fld("x", Small("Struct"))>>, << <<Par("", "x", RecT(Q("SmStruct")))>> >>, <<>>)
+RecTypes == RecNominals \cup SibTypes \cup {MutSI, MutR, MutCI} \cup {RecInitType("Struct"), RecInitType("StructInterface"), RecInitType("Event"), PairInit}
+               \cup {OptT(t) : t \in RecNominals} \cup {VArr(t) : t \in {MutSI, MutR, MutCI}}
+RecValues == {CapV("3", "0000000000000001", RefT(Unauth, t)) : t \in RecNominals \cup {MutSI, MutR, MutCI}}
+             \cup {FunV(t) : t \in {x \in SibTypes : x.k = "fun"}}
+             \cup {Some(TypeV(t)) : t \in {MutSI, RecType("ResourceInterface"), RecType("Struct")}}
+             \cup {Arr(VArr(P("Type")), <<TypeV(RecType("StructInterface")), TypeV(RecType("StructInterface"))>>),
+                   CompV(TH, <<TypeV(MutR)>>), Dict(DictT(P("String"), P("Type")), <<KV(Str("$s:a"), TypeV(RecType("ContractInterface")))>>)}
+
 -----------------------------------------------------------------------------
 (* type universe *)
 T0 == {P(n) : n \in MCPrimNames} \cup Nominals
@@ -140,7 +186,7 @@ T1 == (UNION {Con(t) : t \in T0}) \cup ExtraT
 T1Rep == (UNION {Con(t) : t \in {P(Pick(MCPrimSeq, 0)), P(Pick(MCPrimSeq, 7)), TNode, TEv, Pick(<<TS, TR, TE, TSI, TA, TC, TSInit>>, 0)}}) \cup ExtraT
 T2 == UNION {Con(t) : t \in (IF Full THEN T1 ELSE T1Rep)}
 
-TypeUniverse == T0 \cup T1 \cup T2
+TypeUniverse == T0 \cup T1 \cup T2 \cup RecTypes
 
 -----------------------------------------------------------------------------
 (* value universe *)
@@ -295,5 +341,5 @@ KeyDictValues == KeyDicts \cup UNION {NestK(d) : d \in KeyDicts}
 
 ASSUME PrintT(ToJson([storageonly |-> MCStorageOnly]))
 
-MCUniverse == Leaves \cup TypeLeaves \cup L1 \cup L2 \cup SameNameValues \cup KeyDictValues
+MCUniverse == Leaves \cup TypeLeaves \cup L1 \cup L2 \cup SameNameValues \cup KeyDictValues \cup RecValues
 =============================================================================
